@@ -546,6 +546,17 @@ func (r *listRun[T]) apply(op Op) string {
 		if !r.b.eq(got, r.vals()[:j]) {
 			return r.errf("Each (stopped at %d) lists %s", j, r.b.list(got))
 		}
+		// a second Each from inside the callback of the first, at element j
+		var outer, inner []T
+		r.l.Each(func(v T) bool {
+			if outer = append(outer, v); len(outer) == j {
+				r.l.Each(func(w T) bool { inner = append(inner, w); return true })
+			}
+			return true
+		})
+		if !r.b.eq(outer, r.vals()) || !r.b.eq(inner, r.vals()) {
+			return r.errf("Each with a second Each run inside its callback (at element %d) lists %s and %s", j, r.b.list(outer), r.b.list(inner))
+		}
 		return ""
 	}
 	return r.cursorOp(op)
@@ -602,6 +613,7 @@ func runListOf[T any](c ListCase, o *vk.Obs, b *bound[T]) string {
 		return msg
 	}
 	for i, op := range c.Ops {
+		o.Step() // interleaved execution (vk.Interleave) switches to the other case here
 		r.step = i
 		if msg := guarded(ctx, func() string {
 			if m := r.apply(op); m != "" {
